@@ -253,6 +253,31 @@ func (c *Coordinator) gcTargets(changeAbleShards []*shardInfo, active map[uint64
 	}
 }
 
+// recoverOrphanTransfers put a target back to normal state if it is marked in_transfer but no other
+// shard is scraping it: the shard that should take it over never got it, or does not exist any more.
+// otherwise it would be in_transfer for ever, it could never be moved again and its shard never be idle
+func (c *Coordinator) recoverOrphanTransfers(changeAbleShards []*shardInfo) {
+	for _, s := range changeAbleShards {
+		for h, tar := range s.scraping {
+			if tar.TargetState != target.StateInTransfer {
+				continue
+			}
+
+			orphan := true
+			for _, other := range changeAbleShards {
+				if other != s && other.scraping[h] != nil {
+					orphan = false
+					break
+				}
+			}
+
+			if orphan {
+				tar.TargetState = target.StateNormal
+			}
+		}
+	}
+}
+
 // alleviateShards try remove some targets from shards to alleviate shard burden
 func (c *Coordinator) alleviateShards(changeAbleShards []*shardInfo) space {
 	needSpace := space{}
